@@ -560,7 +560,7 @@ def c10_sweep_task(shard, tid, n, order, via, us_stride, us_offset, seed,
 
 
 # ======================= C13: image / preimage =======================
-def c13_sweep_task(shard, tid, npairs, order, seed, mode, count_T=40):
+def c13_sweep_task(shard, tid, npairs, order, seed, mode, count_T=40, nfree=0):
     """Pairs (p0,q0), (p1,q1), ...: unprimed p_i, primed q_i.
 
     npairs = 1: exhaustive (all 16 relations x all 16 sets x all qvars
@@ -569,19 +569,22 @@ def c13_sweep_task(shard, tid, npairs, order, seed, mode, count_T=40):
     """
     import dd.autoref as _autoref
     rng = random.Random(seed)
-    n = 2 * npairs
+    n = 2 * npairs + nfree
     ab = _autoref.BDD()
     af = AllFunctions(n, order, mgr=ab._bdd)
     b = af.bdd
-    names = af.names          # a,b,c,d: pairs (a,b), (c,d)
-    unp = names[0::2]
-    pri = names[1::2]
+    names = af.names          # a,b,c,d: pairs (a,b), (c,d); then free variables
+    unp = names[0:2 * npairs:2]
+    pri = names[1:2 * npairs:2]
     refs = af.refs()
     sf = SweepFile(shard, tid, af, meta=dict(driver='c13_sweep', npairs=npairs))
     fps = set()
     lv = b.vars
     adjacent = all(abs(lv[p] - lv[q]) == 1 for p, q in zip(unp, pri))
-    if mode == 'all':
+    if mode == 'all' and nfree:
+        transs = rng.sample(refs, 40)
+        operands = refs[::2]
+    elif mode == 'all':
         transs = refs
         operands = refs
     elif mode == 'structured':
@@ -653,6 +656,8 @@ def c13_sweep_task(shard, tid, npairs, order, seed, mode, count_T=40):
             # ---- image: rename primed -> unprimed, quantify a subset incl. the unprimed
             for Q in subsets(names):
                 if not set(unp) <= set(Q) and mode != 'all':
+                    continue
+                if nfree and mode == 'all' and rng.random() < 0.5:
                     continue
                 k += 1
                 if mode != 'all' and rng.random() < (0.8 if mode == 'sample' else 0.5):
